@@ -10,6 +10,7 @@ import (
 	"crypto/rand"
 	"fmt"
 	"math/big"
+	"net"
 	"os"
 	"os/exec"
 	"runtime"
@@ -17,7 +18,9 @@ import (
 	"strings"
 	"sync"
 	"testing"
+	"time"
 
+	"github.com/tjfoc/gmsm/gmtls"
 	"github.com/tjfoc/gmsm/sm2"
 	"github.com/tjfoc/gmsm/sm3"
 	"github.com/tjfoc/gmsm/sm4"
@@ -26,6 +29,7 @@ import (
 
 	"verifharness/gen"
 	"verifharness/hx"
+	"verifharness/ref/rgmssl"
 	"verifharness/ref/rsm2"
 	"verifharness/ref/rsm3"
 	"verifharness/ref/rsm4"
@@ -119,6 +123,11 @@ func modeCall(name string, key, in []byte, enc bool) ([]byte, error) {
 	return append(out, tag...), err
 }
 
+var (
+	certOnce sync.Once
+	certMat  *material
+)
+
 var modeNames = []string{"ecb", "cbc", "cfb", "ofb", "gcm"}
 
 // prepare builds the material and the expected values single-threaded.
@@ -167,16 +176,21 @@ func prepare(t *rapid.T) *material {
 			m.modeOut[fmt.Sprint(mode, i)] = out
 		}
 	}
-	m.pool, m.inter = gx.NewCertPool(), gx.NewCertPool()
-	m.pool.AddCert(p.SM2Root.Cert)
-	m.pool.AddCert(p.RSARoot.Cert)
-	m.pool.AddCert(p.ECRoot.Cert)
-	for _, id := range []*tlsx.Ident{p.SrvSign, p.SrvEnc, p.SrvSignBad, p.SrvSignExpired, p.Client, p.RSASrv, p.ECSrv, p.ClientUntrusted} {
-		m.certs, m.certDER = append(m.certs, id.Cert), append(m.certDER, id.DER)
-	}
-	for i := 0; i < len(m.certs)*3; i++ {
-		m.verWant = append(m.verWant, describeChains(m.certs[i/3].Verify(verifyOpts(m, i))))
-	}
+	certOnce.Do(func() {
+		c := &material{}
+		c.pool, c.inter = gx.NewCertPool(), gx.NewCertPool()
+		c.pool.AddCert(p.SM2Root.Cert)
+		c.pool.AddCert(p.RSARoot.Cert)
+		c.pool.AddCert(p.ECRoot.Cert)
+		for _, id := range []*tlsx.Ident{p.SrvSign, p.SrvEnc, p.SrvSignBad, p.SrvSignExpired, p.Client, p.RSASrv, p.ECSrv, p.ClientUntrusted} {
+			c.certs, c.certDER = append(c.certs, id.Cert), append(c.certDER, id.DER)
+		}
+		for i := 0; i < len(c.certs)*3; i++ {
+			c.verWant = append(c.verWant, describeChains(c.certs[i/3].Verify(verifyOpts(c, i))))
+		}
+		certMat = c
+	})
+	m.pool, m.inter, m.certs, m.certDER, m.verWant = certMat.pool, certMat.inter, certMat.certs, certMat.certDER, certMat.verWant
 	// a BER (indefinite-length) PKCS#7 shell and a DER signed-data made by the library
 	m.ber = gen.DeepBER(3+rapid.IntRange(0, 20).Draw(t, "berdepth"), true)
 	_, e := gx.ParsePKCS7(m.ber)
@@ -330,7 +344,7 @@ func rsm2DER(sig []byte) (r, s *big.Int, ok bool) {
 
 func TestC20_Workloads(t *testing.T) {
 	tlsx.GetPKI()
-	hx.Check(t, hx.N(120, 1500), func(t *rapid.T) {
+	hx.Check(t, hx.N(80, 1500), func(t *rapid.T) {
 		m := prepare(t)
 		ng := []int{2, 3, 4, 8, 16, 32}[gen.Uniform(t, "goroutines", 6)]
 		focus := ""
@@ -493,7 +507,7 @@ func TestC20_FirstUse(t *testing.T) {
 		t.Skip("no executable path")
 	}
 	kinds := []string{"basemult", "sign", "keygen", "oncurve", "params", "mixed"}
-	n := hx.N(12, 120)
+	n := hx.N(10, 120)
 	for i := 0; i < n; i++ {
 		ng := []int{2, 4, 8, 16, 32}[(i+int(hx.Seed()))%5]
 		spec := fmt.Sprintf("%d:%s", ng, kinds[(i/5+i+hx.Shard())%len(kinds)])
@@ -508,5 +522,580 @@ func TestC20_FirstUse(t *testing.T) {
 		if i < 3 {
 			R.Sample("first_use", spec)
 		}
+	}
+}
+
+// ---------- part C: one server Config and one client Config (+ session cache) serving simultaneous connections
+
+func TestC20_SharedConfig(t *testing.T) {
+	p := tlsx.GetPKI()
+	cn := 0
+	hx.Check(t, hx.N(20, 300), func(t *rapid.T) {
+		cn++
+		mode := rapid.SampledFrom([]string{"gm", "auto", "tls"}).Draw(t, "mode")
+		k := []int{2, 3, 4, 8, 12}[gen.Uniform(t, "connections", 5)]
+		rotations := rapid.IntRange(0, 6).Draw(t, "rotations")
+		warm := rapid.Bool().Draw(t, "warm")
+		id := fmt.Sprint("sc", cn)
+		var cc, sc *gmtls.Config
+		switch mode {
+		case "gm":
+			cc, sc = tlsx.GMClient(p, "c"+id), tlsx.GMServer(p, "s"+id)
+			sc.CipherSuites = []uint16{tlsx.GMECCSM4CBCSM3, tlsx.GMECCSM4GCMSM3}
+		case "auto":
+			cc, sc = tlsx.GMClient(p, "c"+id), tlsx.AutoServer(p, p.RSASrv, "s"+id)
+			sc.CipherSuites = []uint16{tlsx.GMECCSM4GCMSM3, tlsx.GMECCSM4CBCSM3, 0xc02f}
+		default:
+			cc, sc = tlsx.TLSClient(p, "c"+id), tlsx.TLSServer(p, p.RSASrv, "s"+id)
+			sc.CipherSuites = []uint16{0xc02f, 0xc014}
+		}
+		if rapid.Bool().Draw(t, "clientauth") {
+			sc.ClientAuth, sc.ClientCAs = gmtls.RequireAndVerifyClientCert, p.RootsAll
+			if mode == "tls" {
+				cc.Certificates = []gmtls.Certificate{p.RSAClient.TLS}
+			} else {
+				cc.Certificates = []gmtls.Certificate{p.Client.TLS}
+			}
+		}
+		cc.ClientSessionCache = gmtls.NewLRUClientSessionCache(rapid.IntRange(1, 3).Draw(t, "cache"))
+		keys := [][32]byte{{1, byte(cn)}}
+		sc.SetSessionTicketKeys(keys)
+		type outcome struct {
+			r        *tlsx.Result
+			cs, ss   []byte
+			panicked *hx.PanicInfo
+		}
+		outs := make([]outcome, k+1)
+		runOne := func(i int) {
+			o := &outs[i]
+			o.cs, o.ss = fill(uint64(cn*100+i), 100+i*977), fill(uint64(cn*100+i+50), 3000+i*1313)
+			o.panicked = hx.Try(func() {
+				o.r = tlsx.Run(cc, sc, tlsx.Script{ClientSend: o.cs, ServerSend: o.ss, ClientAddr: fmt.Sprint("client:", i), ServerAddr: "server:443"})
+			})
+		}
+		if warm {
+			runOne(k)
+		}
+		var start, done sync.WaitGroup
+		start.Add(1)
+		for i := 0; i < k; i++ {
+			done.Add(1)
+			go func(i int) { defer done.Done(); start.Wait(); runOne(i) }(i)
+		}
+		if rotations > 0 {
+			done.Add(1)
+			go func() {
+				defer done.Done()
+				start.Wait()
+				for j := 0; j < rotations; j++ {
+					// rotation keeps every earlier key: tickets issued before stay valid
+					keys = append([][32]byte{{2, byte(cn), byte(j)}}, keys...)
+					sc.SetSessionTicketKeys(keys)
+					runtime.Gosched()
+				}
+			}()
+		}
+		start.Done()
+		done.Wait()
+		var masters [][]byte
+		resumed := 0
+		for pass := 0; pass < 2; pass++ {
+			for i := range outs {
+				o := &outs[i]
+				if o.r == nil && o.panicked == nil {
+					continue
+				}
+				if pass == 0 {
+					if o.panicked != nil {
+						t.Fatalf("connection %d of %d sharing one Config panicked: %v\n%s", i, k, o.panicked.Val, o.panicked.Stack)
+					}
+					r := o.r
+					desc := fmt.Sprintf("mode=%s connections=%d rotations=%d warm=%v | connection %d: %s", mode, k, rotations, warm, i, r.Describe())
+					if r.Client.Panic != nil || r.Server.Panic != nil {
+						t.Fatalf("endpoint panicked\n%s", desc)
+					}
+					if r.Client.HSErr != nil || r.Server.HSErr != nil {
+						t.Fatalf("a connection that succeeds on its own failed when %d connections shared the configuration\n%s", k, desc)
+					}
+					if !bytes.Equal(r.Server.Received, o.cs) || !bytes.Equal(r.Client.Received, o.ss) {
+						t.Fatalf("data of one connection damaged while %d connections shared the configuration\n%s", k, desc)
+					}
+					if r.Client.State.DidResume != r.Server.State.DidResume {
+						t.Fatalf("ends disagree about resumption\n%s", desc)
+					}
+					if r.Client.State.DidResume {
+						resumed++
+					}
+				}
+				if mode == "tls" {
+					continue
+				}
+				// GMSSL: the independent decoder must open every record; a resumed connection under one of the
+				// master secrets established by the full handshakes of this case
+				r := o.r
+				if !r.Client.State.DidResume && pass == 0 {
+					d, err := rgmssl.Decode(r.Log, p.SrvEnc.SM2D, nil)
+					if err != nil {
+						t.Fatalf("independent decoder rejects connection %d (full handshake): %v", i, err)
+					}
+					masters = append(masters, d.Master)
+				}
+				if r.Client.State.DidResume && pass == 1 {
+					ok := false
+					var last error
+					for _, m := range masters {
+						if _, last = rgmssl.Decode(r.Log, p.SrvEnc.SM2D, m); last == nil {
+							ok = true
+							break
+						}
+					}
+					if !ok {
+						t.Fatalf("resumed connection %d does not decode under any master secret of this history (%d candidates): %v", i, len(masters), last)
+					}
+				}
+			}
+		}
+		cl := []string{"shared_config_" + map[string]string{"gm": "gm", "auto": "gm", "tls": "tls"}[mode]}
+		if rotations > 0 {
+			cl = append(cl, "rotation_concurrent")
+		}
+		if resumed > 0 {
+			cl = append(cl, "resumed_concurrently")
+		}
+		R.Case(true, hx.HashKey("shared", cn, mode, k, rotations, warm), cl...)
+		R.Sample("shared_config", map[string]interface{}{"mode": mode, "connections": k, "rotations": rotations, "resumed": resumed})
+	})
+}
+
+// ---------- part D: one connection, concurrent readers, writers, observers and Close
+
+type wmsg struct {
+	writer, seq, size int
+	err               error
+	done              bool
+}
+
+func msgBytes(dir, w, seq, size int) []byte {
+	b := make([]byte, size)
+	if size >= 8 {
+		copy(b, []byte{0xC2, byte(dir), byte(w), byte(seq), byte(size >> 16), byte(size >> 8), byte(size), 0x2C})
+		gen.Fill(b[8:], uint64(dir*1000000+w*1000+seq))
+	}
+	return b
+}
+
+// parseStream checks that s is whole messages of direction dir (each issued at most once, per writer in order) followed
+// by at most one strict prefix of another message; returns the whole ones and the partial one.
+func parseStream(s []byte, dir int, issued map[[2]int]int) (whole [][2]int, partial *[2]int, err string) {
+	next := map[int]int{}
+	for len(s) > 0 {
+		if len(s) < 8 {
+			// too short to identify: must be a prefix of some issued message's header
+			for k, size := range issued {
+				if bytes.HasPrefix(msgBytes(dir, k[0], k[1], size), s) {
+					kk := k
+					return whole, &kk, ""
+				}
+			}
+			return whole, nil, fmt.Sprintf("trailing %d bytes %x belong to no message", len(s), s)
+		}
+		if s[0] != 0xC2 || s[7] != 0x2C || int(s[1]) != dir {
+			return whole, nil, fmt.Sprintf("bytes at a message boundary are not a message header: %x", s[:8])
+		}
+		k := [2]int{int(s[2]), int(s[3])}
+		size := int(s[4])<<16 | int(s[5])<<8 | int(s[6])
+		want, ok := issued[k]
+		if !ok || want != size {
+			return whole, nil, fmt.Sprintf("header names message writer=%d seq=%d size=%d that was never written", k[0], k[1], size)
+		}
+		full := msgBytes(dir, k[0], k[1], size)
+		if k[1] != next[k[0]] {
+			return whole, nil, fmt.Sprintf("message writer=%d seq=%d arrived out of order or twice (expected seq %d)", k[0], k[1], next[k[0]])
+		}
+		if len(s) < size {
+			if !bytes.Equal(s, full[:len(s)]) {
+				return whole, nil, fmt.Sprintf("partial message writer=%d seq=%d has foreign bytes", k[0], k[1])
+			}
+			return whole, &k, ""
+		}
+		if !bytes.Equal(s[:size], full) {
+			return whole, nil, fmt.Sprintf("message writer=%d seq=%d (size %d) is not contiguous / has foreign bytes inside", k[0], k[1], size)
+		}
+		next[k[0]]++
+		whole = append(whole, k)
+		s = s[size:]
+	}
+	return whole, nil, ""
+}
+
+// partition reports whether the chunks, in some order, concatenate to want (exactly).
+func partition(chunks [][]byte, want []byte) bool {
+	byLen := map[int]map[string]int{}
+	left := 0
+	for _, c := range chunks {
+		if len(c) == 0 {
+			continue
+		}
+		if byLen[len(c)] == nil {
+			byLen[len(c)] = map[string]int{}
+		}
+		byLen[len(c)][string(c)]++
+		left++
+	}
+	var lens []int
+	for l := range byLen {
+		lens = append(lens, l)
+	}
+	sort.Sort(sort.Reverse(sort.IntSlice(lens)))
+	steps := 0
+	var rec func(pos int) bool
+	rec = func(pos int) bool {
+		if left == 0 {
+			return pos == len(want)
+		}
+		steps++
+		if steps > 2000000 {
+			return true // give up (inconclusive) rather than raise an alarm
+		}
+		for _, l := range lens {
+			if pos+l > len(want) {
+				continue
+			}
+			k := string(want[pos : pos+l])
+			if byLen[l][k] > 0 {
+				byLen[l][k]--
+				left--
+				if rec(pos + l) {
+					return true
+				}
+				byLen[l][k]++
+				left++
+			}
+		}
+		return false
+	}
+	return rec(0)
+}
+
+func sizeGen() *rapid.Generator[int] {
+	return rapid.Custom(func(t *rapid.T) int {
+		switch gen.Uniform(t, "sizeclass", 5) {
+		case 0:
+			return rapid.IntRange(8, 64).Draw(t, "small")
+		case 1:
+			return rapid.IntRange(65, 4000).Draw(t, "medium")
+		case 2:
+			return 16384 + rapid.IntRange(-40, 40).Draw(t, "record")
+		case 3:
+			return rapid.IntRange(16385, 70000).Draw(t, "multi")
+		}
+		return rapid.IntRange(8, 20000).Draw(t, "any")
+	})
+}
+
+func TestC20_ConnOps(t *testing.T) {
+	p := tlsx.GetPKI()
+	cn := 0
+	hx.Check(t, hx.N(120, 2000), func(t *rapid.T) {
+		cn++
+		id := fmt.Sprint("co", cn)
+		mode := rapid.SampledFrom([]string{"gm_cbc", "gm_gcm", "tls_gcm", "tls_cbc"}).Draw(t, "mode")
+		var cc, sc *gmtls.Config
+		if strings.HasPrefix(mode, "gm") {
+			cc, sc = tlsx.GMClient(p, "c"+id), tlsx.GMServer(p, "s"+id)
+			cc.CipherSuites = []uint16{map[string]uint16{"gm_cbc": tlsx.GMECCSM4CBCSM3, "gm_gcm": tlsx.GMECCSM4GCMSM3}[mode]}
+		} else {
+			cc, sc = tlsx.TLSClient(p, "c"+id), tlsx.TLSServer(p, p.RSASrv, "s"+id)
+			cc.CipherSuites = []uint16{map[string]uint16{"tls_gcm": 0xc02f, "tls_cbc": 0xc014}[mode]}
+			cc.MinVersion, cc.MaxVersion = 0x0303, 0x0303
+		}
+		// shape: side 0 = client, side 1 = server
+		multiReader := rapid.Bool().Draw(t, "multiReader")
+		var nW, nR [2]int
+		var closeSide, closeAfter int
+		if multiReader {
+			// one writer per direction (the stream is then known exactly), several readers, Close at the end
+			nW = [2]int{1, rapid.IntRange(0, 1).Draw(t, "w1")}
+			nR = [2]int{rapid.IntRange(1, 4).Draw(t, "r0"), rapid.IntRange(2, 4).Draw(t, "r1")}
+			closeAfter = -1
+		} else {
+			nW = [2]int{rapid.IntRange(1, 4).Draw(t, "w0"), rapid.IntRange(0, 3).Draw(t, "w1")}
+			nR = [2]int{1, 1}
+			closeSide = rapid.IntRange(0, 1).Draw(t, "closeSide")
+			closeAfter = rapid.IntRange(-1, 6).Draw(t, "closeAfter") // -1: after every writer has finished
+		}
+		observers := rapid.IntRange(0, 2).Draw(t, "observers")
+		plans := [2][][]*wmsg{}
+		issued := [2]map[[2]int]int{{}, {}}
+		for side := 0; side < 2; side++ {
+			for w := 0; w < nW[side]; w++ {
+				var l []*wmsg
+				for s := 0; s < rapid.IntRange(1, 4).Draw(t, "nmsgs"); s++ {
+					m := &wmsg{writer: w, seq: s, size: sizeGen().Draw(t, "size")}
+					l = append(l, m)
+					issued[side][[2]int{w, s}] = m.size
+				}
+				plans[side] = append(plans[side], l)
+			}
+		}
+		rbuf := func() int {
+			return rapid.SampledFrom([]int{1, 7, 100, 1024, 16384, 40000}).Draw(t, "rbuf")
+		}
+		var rbufs [2][]int
+		for side := 0; side < 2; side++ {
+			for r := 0; r < nR[side]; r++ {
+				rbufs[side] = append(rbufs[side], rbuf())
+			}
+		}
+		desc := fmt.Sprintf("mode=%s writers=%v readers=%v readbufs=%v closeSide=%d closeAfter=%d observers=%d", mode, nW, nR, rbufs, closeSide, closeAfter, observers)
+
+		t0 := time.Now()
+		defer func() {
+			if d := time.Since(t0); d > time.Second && os.Getenv("C20_TIMING") != "" {
+				fmt.Printf("SLOW %v %s\n", d, desc)
+			}
+		}()
+		c0, c1 := net.Pipe()
+		conns := [2]*gmtls.Conn{gmtls.Client(c0, cc), gmtls.Server(c1, sc)}
+		var hs sync.WaitGroup
+		var hsErr [2]error
+		for side := 0; side < 2; side++ {
+			hs.Add(1)
+			go func(side int) { defer hs.Done(); hsErr[side] = conns[side].Handshake() }(side)
+		}
+		watchdog(&hs, desc+" (handshake)")
+		if hsErr[0] != nil || hsErr[1] != nil {
+			t.Fatalf("harness: handshake failed: %v / %v", hsErr[0], hsErr[1])
+		}
+		st0 := conns[0].ConnectionState()
+
+		var all sync.WaitGroup
+		var writersDone, readersDone [2]sync.WaitGroup
+		var mu sync.Mutex
+		chunks := [2][][][]byte{} // [side][reader] -> chunks in that reader's order
+		readErr := [2][]error{}
+		var panics []*hx.PanicInfo
+		var obsErr []string
+		okWrites := make(chan int, 64)
+		stop := make(chan struct{})
+		guard := func(f func()) {
+			if pn := hx.Try(f); pn != nil {
+				mu.Lock()
+				panics = append(panics, pn)
+				mu.Unlock()
+				conns[0].Close()
+				conns[1].Close()
+			}
+		}
+		for side := 0; side < 2; side++ {
+			chunks[side] = make([][][]byte, nR[side])
+			readErr[side] = make([]error, nR[side])
+			for r := 0; r < nR[side]; r++ {
+				all.Add(1)
+				readersDone[side].Add(1)
+				go func(side, r int) {
+					defer all.Done()
+					defer readersDone[side].Done()
+					guard(func() {
+						buf := make([]byte, rbufs[side][r])
+						for reads := 0; ; reads++ {
+							if reads == 400 && len(buf) < 1024 {
+								buf = make([]byte, 16384) // tiny buffers only for the first few thousand calls
+							}
+							n, err := conns[side].Read(buf)
+							if n > 0 {
+								chunks[side][r] = append(chunks[side][r], append([]byte{}, buf[:n]...))
+							}
+							if err != nil {
+								readErr[side][r] = err
+								return
+							}
+						}
+					})
+				}(side, r)
+			}
+			for w := range plans[side] {
+				all.Add(1)
+				writersDone[side].Add(1)
+				go func(side, w int) {
+					defer all.Done()
+					defer writersDone[side].Done()
+					guard(func() {
+						for _, m := range plans[side][w] {
+							n, err := conns[side].Write(msgBytes(side, m.writer, m.seq, m.size))
+							m.err, m.done = err, true
+							if err == nil && n != m.size {
+								m.err = fmt.Errorf("short write %d of %d without error", n, m.size)
+							}
+							if side == closeSide {
+								select {
+								case okWrites <- 1:
+								default:
+								}
+							}
+							if err != nil {
+								return
+							}
+						}
+					})
+				}(side, w)
+			}
+		}
+		for o := 0; o < observers; o++ {
+			all.Add(1)
+			go func(o int) {
+				defer all.Done()
+				guard(func() {
+					for i := 0; i < 50; i++ {
+						select {
+						case <-stop:
+							return
+						default:
+						}
+						c := conns[(o+i)%2]
+						st := c.ConnectionState()
+						if !st.HandshakeComplete || st.Version != st0.Version || st.CipherSuite != st0.CipherSuite {
+							mu.Lock()
+							obsErr = append(obsErr, fmt.Sprintf("ConnectionState changed while data flows: %+v", st))
+							mu.Unlock()
+							return
+						}
+						if err := c.Handshake(); err != nil && i == 0 {
+							mu.Lock()
+							obsErr = append(obsErr, "Handshake() on an established connection: "+err.Error())
+							mu.Unlock()
+						}
+						runtime.Gosched()
+					}
+				})
+			}(o)
+		}
+		// the closer
+		all.Add(1)
+		concurrentClose := false
+		go func() {
+			defer all.Done()
+			guard(func() {
+				if closeAfter >= 0 {
+					for i := 0; i < closeAfter; i++ {
+						select {
+						case <-okWrites:
+						case <-waitCh(&writersDone[closeSide]):
+							i = closeAfter
+						}
+					}
+					concurrentClose = true
+				} else {
+					writersDone[0].Wait()
+					writersDone[1].Wait()
+				}
+				conns[closeSide].Close()
+				// the other side finishes its writers (they fail or complete), then closes too
+				writersDone[1-closeSide].Wait()
+				readersDone[1-closeSide].Wait() // they drain what was delivered, then see the end of the stream
+				conns[1-closeSide].Close()
+				close(stop)
+			})
+		}()
+		watchdog(&all, desc)
+		if len(panics) > 0 {
+			t.Fatalf("panic in a connection used by several goroutines: %v\n%s\n%s", panics[0].Val, panics[0].Stack, desc)
+		}
+		if len(obsErr) > 0 {
+			t.Fatalf("%s\n%s", obsErr[0], desc)
+		}
+		// judge each direction: bytes written by `side` are read by 1-side
+		for side := 0; side < 2; side++ {
+			rd := 1 - side
+			if nR[rd] == 1 {
+				var stream []byte
+				for _, c := range chunks[rd][0] {
+					stream = append(stream, c...)
+				}
+				whole, partial, e := parseStream(stream, side, issued[side])
+				if e != "" {
+					t.Fatalf("what side %d received is not a sequential interleaving of the Write calls of side %d: %s\n%s", rd, side, e, desc)
+				}
+				got := map[[2]int]bool{}
+				for _, k := range whole {
+					got[k] = true
+				}
+				for _, l := range plans[side] {
+					for _, m := range l {
+						k := [2]int{m.writer, m.seq}
+						if m.done && m.err == nil && !got[k] && !(concurrentClose && rd == closeSide) {
+							t.Fatalf("Write (writer %d, message %d, %d bytes) returned success but the peer never received it\n%s", m.writer, m.seq, m.size, desc)
+						}
+						if m.done && m.err != nil && !concurrentClose {
+							t.Fatalf("Write failed although nothing was closed: %v\n%s", m.err, desc)
+						}
+						if partial != nil && *partial == k && m.err == nil && !(concurrentClose && rd == closeSide) {
+							t.Fatalf("Write (writer %d, message %d) returned success but was delivered only in part\n%s", m.writer, m.seq, desc)
+						}
+					}
+				}
+				if partial != nil && !concurrentClose {
+					t.Fatalf("a message arrived only in part although the connection was closed after all writes\n%s", desc)
+				}
+			} else {
+				var want []byte
+				for _, l := range plans[side] {
+					for _, m := range l {
+						want = append(want, msgBytes(side, m.writer, m.seq, m.size)...)
+					}
+				}
+				var flat [][]byte
+				total := 0
+				for _, rc := range chunks[rd] {
+					for _, c := range rc {
+						flat = append(flat, c)
+						total += len(c)
+					}
+				}
+				if total != len(want) {
+					t.Fatalf("%d concurrent readers received %d bytes in total, %d were written\n%s", nR[rd], total, len(want), desc)
+				}
+				if !partition(flat, want) {
+					t.Fatalf("the chunks returned to %d concurrent readers cannot be arranged into the stream that was written (bytes lost, duplicated or torn)\n%s", nR[rd], desc)
+				}
+			}
+		}
+		cl := []string{"conn:" + mode}
+		if nW[0] > 1 || nW[1] > 1 {
+			cl = append(cl, "conn_multi_writer")
+		}
+		if multiReader {
+			cl = append(cl, "conn_multi_reader")
+		}
+		if concurrentClose {
+			cl = append(cl, "conn_close_concurrent")
+		}
+		R.Case(true, hx.HashKey("conn", desc, fmt.Sprint(issued)), cl...)
+		R.Sample("conn_ops", desc)
+	})
+}
+
+func fill(seed uint64, n int) []byte {
+	b := make([]byte, n)
+	gen.Fill(b, seed)
+	return b
+}
+
+func waitCh(wg *sync.WaitGroup) chan struct{} {
+	ch := make(chan struct{})
+	go func() { wg.Wait(); close(ch) }()
+	return ch
+}
+
+// watchdog waits for wg; if that takes absurdly long the run is declared inconclusive (exit 3 = infrastructure for
+// the driver), never a violation: a wall clock is not a correctness oracle.
+func watchdog(wg *sync.WaitGroup, desc string) {
+	select {
+	case <-waitCh(wg):
+	case <-time.After(180 * time.Second):
+		buf := make([]byte, 1<<20)
+		n := runtime.Stack(buf, true)
+		fmt.Printf("INCONCLUSIVE: goroutines still blocked after 180 s: %s\n%s\n", desc, buf[:n])
+		os.Exit(3)
 	}
 }
